@@ -61,7 +61,10 @@ def handle(job):
     pdt = jnp.dtype(job.get("pdtype", "float32"))       # parameter (and gradient) dtype
     params = {"w": jnp.asarray(p).astype(pdt)}
     state = opt.init(params)
-    upd = jax.jit(opt.update)
+    # eager jobs call the transformation op by op and throw one result away first (a dry run / look-ahead
+    # from the same state object): update must not write into the state it is given
+    eager = bool(job.get("eager"))
+    upd = opt.update if eager else jax.jit(opt.update)
     exact = np.zeros(shape, np.float64)
     prev = [np.zeros(s, np.float64) for s in shape]
     events = []
@@ -70,6 +73,8 @@ def handle(job):
       cb = int(np.asarray(state.count))
       gj = jnp.asarray(g).astype(pdt)
       g = np.asarray(gj.astype(jnp.float32))            # what the optimizer was given, exactly
+      if eager:
+        upd({"w": gj}, state, params)
       u, state = upd({"w": gj}, state, params)
       ca = int(np.asarray(state.count))
       accs = [np.asarray(a, np.float64) for a in state.stats["w"].diagonal_statistics]
